@@ -44,12 +44,35 @@ func genReadCase(c *core.Ctx, i int, outOfRange int) *readCase {
 	for k := 0; k < n; k++ {
 		rc.datums = append(rc.datums, rc.ds.GenDatum(r, rc.ds.S, gen.DatumOpts{OutOfRange: outOfRange}, &rc.misfit))
 	}
+	big := i%251 == 250
+	if big {
+		// file blocks beyond 64 KiB and 128 KiB (the steps in which a reader may grow its block buffer)
+		sz := 0
+		for _, d := range rc.datums {
+			b, _ := refavro.Encode(nil, rc.ds.S, d, nil)
+			sz += len(b)
+		}
+		if sz > 0 {
+			base, baseSz := rc.datums, sz
+			for sz < 400<<10 && len(rc.datums) < 40000 {
+				rc.datums = append(rc.datums, base...)
+				sz += baseSz
+			}
+		}
+	}
 	rc.style = r.IntN(4)
 	rc.ch = &gen.RandChooser{R: r, Style: rc.style}
 	rc.codec = fileCodecs[r.IntN(4)]
 	// partition of records into file blocks
 	var blocks [][]any
 	rest := rc.datums
+	if big && len(rest) > 8 {
+		// growing blocks: roughly 1/7, 2/7, 4/7 of the records
+		a, b := len(rest)/7, 3*len(rest)/7
+		blocks = append(blocks, rest[:a], rest[a:b], rest[b:])
+		rest = nil
+		c.Count("files-with-large-blocks", 1)
+	}
 	for len(rest) > 0 {
 		k := 1 + r.IntN(len(rest))
 		switch r.IntN(3) {
@@ -60,6 +83,11 @@ func genReadCase(c *core.Ctx, i int, outOfRange int) *readCase {
 		}
 		blocks = append(blocks, rest[:k])
 		rest = rest[k:]
+	}
+	if r.IntN(6) == 0 {
+		// an empty block is a legal part of a partition
+		at := r.IntN(len(blocks) + 1)
+		blocks = append(blocks[:at:at], append([][]any{{}}, blocks[at:]...)...)
 	}
 	rc.nblocks = len(blocks)
 	var sync [16]byte
